@@ -858,3 +858,101 @@ def openssh_pub_layout(alg, blob, row):
     if row['finalnl']:
         line += b'\r\n' if row['eol'] == 'crlf' else b'\n'
     return line, cm
+
+
+# --------------------------------------------------------------------------
+# key list loading (load_keypairs, client_keys=, load_public_keys, ...)
+# --------------------------------------------------------------------------
+
+KL_PW = 'keylist-pw'
+KL_WRONG = 'keylist-pX'
+
+
+class KeyListWorld:
+    """Files and objects for the entries of a key list.  Position i of a list
+    always uses its own key (slot i), so every result can be attributed."""
+
+    def __init__(self, scr, kts, slots=3):
+        self.scr = scr
+        use = [k for k in ('ed25519', 'ec256', 'ec384', 'ed448') if k in kts]
+        self.kt = [use[i % len(use)] for i in range(slots + 1)]
+        self.ca = key(use[0], 30)
+        self.keys = {}
+        self.certs = {}
+        self.asked = []
+        for i in range(1, slots + 1):
+            k = copy_with_comment(key(self.kt[i], 30 + i),
+                                  b'slot%d' % i)
+            self.keys[i] = k
+            self.certs[i] = self.ca.generate_user_certificate(
+                k, 'kl-%d' % i, principals=['u%d' % i])
+            pub = k.convert_to_public().export_public_key('openssh')
+            cert = self.certs[i].export_certificate('openssh')
+            plain = k.export_private_key('openssh')
+            enc = k.export_private_key('pkcs8-pem', KL_PW)
+            for name, data, sib in [
+                    ('path', plain, {}), ('path_pub', plain, {'.pub': pub}),
+                    ('path_cert', plain, {'-cert.pub': cert}),
+                    ('enc', enc, {}), ('enc_pub', enc, {'.pub': pub}),
+                    ('enc_cert', enc, {'-cert.pub': cert}),
+                    ('pathtuple', plain, {}), ('ppath', pub, {}),
+                    ('cpath', cert, {})]:
+                f = scr.write(f's{i}_{name}', data)
+                for suffix, sdata in sib.items():
+                    scr.write(f's{i}_{name}{suffix}', sdata, 0o644)
+            scr.write(f's{i}_tuplecert.pub', cert, 0o644)
+            self.enc_bytes = getattr(self, 'enc_bytes', {})
+            self.enc_bytes[i] = enc
+
+    def path(self, i, kind):
+        return self.scr.path(f's{i}_{kind}')
+
+    def entry(self, i, kind):
+        k = self.keys[i]
+        if kind in ('path', 'path_pub', 'path_cert', 'enc', 'enc_pub',
+                    'enc_cert', 'ppath', 'cpath'):
+            return self.path(i, kind)
+        if kind == 'bytes':
+            return k.export_private_key('pkcs8-pem')
+        if kind == 'encbytes':
+            return self.enc_bytes[i]
+        if kind == 'obj':
+            return copy_with_comment(k, b'slot%d' % i)
+        if kind == 'tuple':
+            return (copy_with_comment(k, b'slot%d' % i), self.certs[i])
+        if kind == 'pathtuple':
+            return (self.path(i, kind), self.scr.path(f's{i}_tuplecert.pub'))
+        if kind == 'pair':
+            return asyncssh.load_keypairs(
+                [copy_with_comment(k, b'slot%d' % i)])[0]
+        if kind == 'pbytes':
+            return k.convert_to_public().export_public_key('rfc4716')
+        if kind == 'pobj':
+            return k.convert_to_public()
+        if kind == 'cbytes':
+            return self.certs[i].export_certificate('rfc4716')
+        if kind == 'cobj':
+            return self.certs[i]
+        raise ValueError(kind)
+
+    def passphrase(self, mode):
+        self.asked = []
+        if mode == 'none':
+            return None
+        if mode == 'string':
+            return KL_PW
+        if mode == 'wrong':
+            return KL_WRONG
+        answer = KL_PW if mode == 'callable' else KL_WRONG
+
+        def ask(filename):
+            self.asked.append(filename)
+            return answer
+        return ask
+
+    def reference_pair(self, i, with_cert):
+        """The pair entry i gives when loaded on its own from memory."""
+        k = copy_with_comment(self.keys[i], b'slot%d' % i)
+        if with_cert:
+            return asyncssh.load_keypairs([(k, self.certs[i])])[0]
+        return asyncssh.load_keypairs([k])[0]
